@@ -65,7 +65,7 @@ def run_case(case, ses):
     z3 = z3mod()
     tower = spec['atom'] in TOWER_ATOMS or spec.get('base') == 'power3'
     with quiet():
-        cm = Compiled(detgen.desc_from_spec(spec), abstract_towers=tower)
+        cm = Compiled(detgen.desc_from_spec(spec), abstract_towers=tower, front=spec.get('front', 'ro'))
     ses.stats.programs += 1
     cp = cm.cp
     if tower:
@@ -160,7 +160,7 @@ def layer_b(ses, spec, cm, rows):
     name = spec['name']
     if cm.pcalls:
         with quiet():
-            cm = Compiled(detgen.desc_from_spec(spec))
+            cm = Compiled(detgen.desc_from_spec(spec), front=spec.get('front', 'ro'))
     m = cm.r.m
     with quiet():
         try:
@@ -203,7 +203,7 @@ def replay(data, verbose=False, want_info=False):
     user's constraint evaluated directly at its user-variable part is violated."""
     spec = data['spec']
     with quiet():
-        cm = Compiled(detgen.desc_from_spec(spec), abstract_towers=((spec['atom'] in TOWER_ATOMS or spec.get('base') == 'power3') and data['row'] != 'solver-point'))
+        cm = Compiled(detgen.desc_from_spec(spec), abstract_towers=((spec['atom'] in TOWER_ATOMS or spec.get('base') == 'power3') and data['row'] != 'solver-point'), front=spec.get('front', 'ro'))
     v = data['v']
     info = {}
     rows = cm.rows()
